@@ -234,3 +234,15 @@ func HighSTwin(sig [64]byte) [64]byte {
 	copy(out[32:], pad32(s))
 	return out
 }
+
+// MirrorKey returns the key pair with private key N-d: its public point has
+// the same X coordinate as k's and the opposite Y, so the 32-byte public key
+// (X only, even Y implied) is the same string although the key is another one.
+func MirrorKey(k Key) Key {
+	n := curve().Params().N
+	d := new(big.Int).SetBytes(k.Priv[:])
+	d.Sub(n, d)
+	out := Key{Pub: k.Pub}
+	copy(out.Priv[:], pad32(d))
+	return out
+}
